@@ -36,6 +36,19 @@ def _labels(desc, n, m, k, a, rec):
         rec.label('n=1')
 
 
+def _later_calls(n, seed):
+    """Unrelated later use of the two iterations (smaller or equal problem size): results returned earlier must stay what they were."""
+    rng = np.random.default_rng(seed)
+    for n2 in (n, max(1, n - 1)):
+        B = rng.normal(size=(n2, n2)) + 1j * rng.normal(size=(n2, n2))
+        x = rng.normal(size=n2) + 1j * rng.normal(size=n2)
+        m2 = min(3, n2)
+        with warnings.catch_warnings():
+            warnings.simplefilter('ignore')
+            ptn.lanczos_iteration(lambda y: (B + B.conj().T) @ y, x, m2)
+            ptn.arnoldi_iteration(lambda y: B @ y, x, m2)
+
+
 def check_lanczos(case, rec):
     A, v, k, reach = build(case)
     if k < 0:
@@ -49,6 +62,11 @@ def check_lanczos(case, rec):
         warnings.simplefilter('ignore')
         alpha, beta, V = ptn.lanczos_iteration(lambda x: A @ x, v, m)
     require(np.array_equal(A, A0) and v.tobytes() == v0.tobytes(), 'lanczos_iteration modified the start vector')
+    # the returned arrays are judged after the library has been used again: a result must not live in storage that later calls reuse
+    snap = (np.array(alpha, copy=True), np.array(beta, copy=True), np.array(V, copy=True))
+    _later_calls(A.shape[0], case['seed'] if 'seed' in case else 0)
+    require(np.array_equal(alpha, snap[0]) and np.array_equal(beta, snap[1]) and np.array_equal(V, snap[2]),
+            'arrays returned by lanczos_iteration were overwritten by a later call')
     a = len(alpha)
     require(V.ndim == 2 and V.shape == (n, a) and len(beta) == a - 1, 'inconsistent output sizes',
             alpha=len(alpha), beta=len(beta), V=V.shape)
@@ -85,6 +103,9 @@ def check_arnoldi(case, rec):
         warnings.simplefilter('ignore')
         H, V = ptn.arnoldi_iteration(lambda x: A @ x, v, m)
     require(v.tobytes() == v0.tobytes(), 'arnoldi_iteration modified the start vector')
+    snap = (np.array(H, copy=True), np.array(V, copy=True))
+    _later_calls(A.shape[0], case['seed'] if 'seed' in case else 0)
+    require(np.array_equal(H, snap[0]) and np.array_equal(V, snap[1]), 'arrays returned by arnoldi_iteration were overwritten by a later call')
     require(H.ndim == 2 and H.shape[0] == H.shape[1], 'H is not square', H=H.shape)
     a = H.shape[0]
     require(V.shape == (n, a), 'inconsistent output sizes', H=H.shape, V=V.shape)
